@@ -107,8 +107,18 @@ def requestor_run(c, server_port, acceptor_ae):
             if event.data and event.data[0] == 2 and "ac" not in cap:
                 cap["ac"] = bytes(event.data)
 
-        assoc = ae.associate("127.0.0.1", server_port, contexts=cxs, ae_title=TITLE[c["called"]], max_pdu=maxpdu, ext_neg=ext,
-                             evt_handlers=[(evt.EVT_DATA_SENT, sent), (evt.EVT_DATA_RECV, recv)])
+        hs = [(evt.EVT_DATA_SENT, sent), (evt.EVT_DATA_RECV, recv)]
+        given = cxs
+        if origin == "edited" and c["shape"] in ("distinct", "many_ts") and len(cxs) <= 128:
+            ae.requested_contexts = cxs
+            given = None
+
+            def edit(event):
+                # the connection is open, the A-ASSOCIATE-RQ not yet written
+                for cx in list(ae.requested_contexts)[:2]:
+                    ae.remove_requested_context(cx.abstract_syntax, list(cx.transfer_syntax))
+            hs.append((evt.EVT_CONN_OPEN, edit))
+        assoc = ae.associate("127.0.0.1", server_port, contexts=given, ae_title=TITLE[c["called"]], max_pdu=maxpdu, ext_neg=ext, evt_handlers=hs)
         if assoc.is_established:
             assoc.release()
         elif not (assoc.is_aborted or assoc.is_rejected or assoc.is_released):
@@ -157,7 +167,7 @@ def run(ctx: Ctx) -> int:
         rng = random.Random(ctx.seed + 12)
         opts = {"calling": list(TITLE), "called": ["max16", "padded", "one"], "n": [1, 2, 3, 127, 128, 129], "shape": ["distinct", "same_abstract", "many_ts", "many_ts", "no_ts", "no_abstract"],
                 "maxpdu": ["zero", "default", "u32max", "small"], "ver": ["default", "none", "long16"], "acc": ["all", "none", "some_roles_off", "ts_mismatch"],
-                "ids": ["fresh", "fresh", "reused", "mixed", "dup"]}
+                "ids": ["fresh", "fresh", "reused", "mixed", "dup", "edited"]}
         for _ in range(600):
             c = {k: rng.choice(v) for k, v in opts.items()}
             c["ext"] = sorted(x for x in ("role", "async", "sopext", "common", "identity") if rng.random() < 0.4)
